@@ -145,6 +145,53 @@ func (w *zzC04World) scanSealed() {
 	}
 }
 
+// scanOpensUnder: does any stored value (or length-prefixed field of one) of
+// the CURRENT database content open under key?
+func (w *zzC04World) scanOpensUnder(key *snacl.CryptoKey, what string) {
+	where := ""
+	try := func(ct []byte) {
+		if len(ct) < snacl.NonceSize+snacl.Overhead {
+			return
+		}
+		if _, err := key.Decrypt(ct); err == nil {
+			verifrt.Observe("opens-under", what+" at "+where)
+			verifrt.Assert(false, "c04-watching-only-database-keeps-private-material-the-passphrase-opens")
+			verifrt.Observe("opens-under", "")
+		}
+	}
+	d := w.db.Dump()
+	for i := 1; i < len(d); i += 2 {
+		v := d[i]
+		where = zzPrintable(d[i-1])
+		try(v)
+		for off := 0; off+4 <= len(v); off++ {
+			if !verifrt.IsConcrete(v[off : off+4]) {
+				continue
+			}
+			n := int(uint32(v[off]) | uint32(v[off+1])<<8 | uint32(v[off+2])<<16 | uint32(v[off+3])<<24)
+			if n >= snacl.NonceSize+snacl.Overhead && off+4+n <= len(v) {
+				try(v[off+4 : off+4+n])
+			}
+		}
+	}
+	verifrt.Reach("post-conversion-content-scanned")
+}
+
+func zzPrintable(b []byte) string {
+	const hex = "0123456789abcdef"
+	out := make([]byte, 0, len(b))
+	for _, c := range b {
+		if !verifrt.IsConcrete([]byte{c}) {
+			out = append(out, '?')
+		} else if c >= 0x20 && c < 0x7f {
+			out = append(out, c)
+		} else {
+			out = append(out, '\\', hex[c>>4], hex[c&15])
+		}
+	}
+	return string(out)
+}
+
 func ZzC04() {
 	w := &zzC04World{zzMgrWorld: &zzMgrWorld{db: memdb.New()}}
 	w.params = zzNewParams()
@@ -269,9 +316,22 @@ func ZzC04() {
 	w.scan(false)
 	w.scanSealed()
 
-	// conversion to watching-only
+	// conversion to watching-only, optionally after the root key was neutered
+	// (wallet.Create... does that for wallets that must not keep the HD root)
+	var privKeyCopy, masterKeyCopy snacl.CryptoKey
+	copy(privKeyCopy[:], w.mgr.cryptoKeyPriv.(*cryptoKey).CryptoKey[:])
+	copy(masterKeyCopy[:], w.mgr.masterKeyPriv.Key[:])
+	if verifrt.Choice(2, "neuter-root-key-first") == 1 {
+		zzMust(w.update(func(ns walletdb.ReadWriteBucket) error { return w.mgr.NeuterRootKey(ns) }))
+		verifrt.Reach("root-key-neutered")
+	}
 	zzMust(w.update(func(ns walletdb.ReadWriteBucket) error { return w.mgr.ConvertToWatchingOnly(ns) }))
 	w.scan(false)
+	// "no passphrase unlocks it": nothing that is still stored may open under
+	// the key the private passphrase derives (master key) or under the
+	// private crypto key it protects
+	w.scanOpensUnder(&masterKeyCopy, "master private key")
+	w.scanOpensUnder(&privKeyCopy, "private crypto key")
 	w.mgr.Close()
 	zzMust(w.view(func(ns walletdb.ReadBucket) error {
 		m, err := Open(ns, w.pubPass, w.params)
